@@ -36,6 +36,14 @@ SOFTWARE.
 #define CAT_WRITE_STATE_MAIN_BUFFER (1U)
 #define CAT_WRITE_STATE_AFTER (2U)
 
+#ifdef CAT_VERIF
+/* verification hook (off unless the library is built with -DCAT_VERIF): reports every access to state shared between API callers */
+void (*cat_verif_touch)(const struct cat_object *self, int what);
+#define CAT_VERIF_TOUCH(self, what) do { if (cat_verif_touch != NULL) cat_verif_touch((self), (what)); } while (0)
+#else
+#define CAT_VERIF_TOUCH(self, what) do { } while (0)
+#endif
+
 static inline char* get_atcmd_buf(struct cat_object *self)
 {
         return (char*)self->desc->buf;
@@ -86,6 +94,7 @@ static void unsolicited_reset_state(struct cat_object *self)
 
 static cat_status is_busy(struct cat_object *self)
 {
+        CAT_VERIF_TOUCH(self, 5);
         if (self->state != CAT_STATE_IDLE)
                 return CAT_STATUS_BUSY;
         if (self->unsolicited_fsm.state != CAT_UNSOLICITED_STATE_IDLE)
@@ -112,6 +121,7 @@ cat_status cat_is_busy(struct cat_object *self)
 
 static cat_status is_hold(struct cat_object *self)
 {
+        CAT_VERIF_TOUCH(self, 6);
         return (self->hold_state_flag != false) ? CAT_STATUS_HOLD : CAT_STATUS_OK;
 }
 
@@ -157,6 +167,7 @@ static bool is_variables_access_possible(struct cat_object *self, const struct c
 static bool is_unsolicited_buffer_full(struct cat_object *self)
 {
         assert(self != NULL);
+        CAT_VERIF_TOUCH(self, 7);
 
         return (self->unsolicited_fsm.unsolicited_cmd_buffer_items_count == CAT_UNSOLICITED_CMD_BUFFER_SIZE) ? true : false;
 }
@@ -178,6 +189,7 @@ static cat_status pop_unsolicited_cmd(struct cat_object *self, struct cat_comman
 
         if (is_unsolicited_buffer_empty(self) != false)
                 return CAT_STATUS_ERROR_BUFFER_EMPTY;
+        CAT_VERIF_TOUCH(self, 2);
 
         item = &self->unsolicited_fsm.unsolicited_cmd_buffer[self->unsolicited_fsm.unsolicited_cmd_buffer_head];
 
@@ -202,6 +214,7 @@ static cat_status push_unsolicited_cmd(struct cat_object *self, struct cat_comma
 
         if (is_unsolicited_buffer_full(self) != false)
                 return CAT_STATUS_ERROR_BUFFER_FULL;
+        CAT_VERIF_TOUCH(self, 1);
 
         item = &self->unsolicited_fsm.unsolicited_cmd_buffer[self->unsolicited_fsm.unsolicited_cmd_buffer_tail];
 
@@ -2019,6 +2032,7 @@ static cat_status process_idle_state(struct cat_object *self)
 static void enable_hold_state(struct cat_object *self)
 {
         assert(self != NULL);
+        CAT_VERIF_TOUCH(self, 4);
 
         self->state = CAT_STATE_HOLD;
         self->hold_state_flag = true;
@@ -2030,6 +2044,7 @@ static cat_status hold_exit(struct cat_object *self, cat_status status)
         cat_status s;
 
         assert(self != NULL);
+        CAT_VERIF_TOUCH(self, 3);
 
         if (self->hold_state_flag == false) {
                 s = CAT_STATUS_ERROR_NOT_HOLD;
@@ -2597,6 +2612,7 @@ cat_status cat_service(struct cat_object *self)
         if ((self->mutex != NULL) && (self->mutex->lock() != 0))
                 return CAT_STATUS_ERROR_MUTEX_LOCK;
 
+        CAT_VERIF_TOUCH(self, 8);
         unsolicited_stat = unsolicited_events_service(self);
 
         switch (self->state) {
